@@ -515,6 +515,10 @@ def impl_meta(q):
             "unknown": [[e.magic, e.len, d.hex()] for e, d in q.unknown_extensions], "snapshots": snaps}
 
 
+class _Watchdog(BaseException):
+    pass
+
+
 def check_case(r, rng, nq=10):
     """-> (list of mismatch descriptions, list of notes) for one recipe: metadata, active reads, snapshot reads"""
     bad, notes = [], []
@@ -552,14 +556,14 @@ def selftest(n=300, seed=0, tier="quick", watchdog=30, **knobs):
     t0, nbad, nnotes, feats = time.time(), 0, 0, {}
 
     def on_alarm(*a):
-        raise TimeoutError(f"watchdog: case took more than {watchdog} s (hang?)")
+        raise _Watchdog(f"watchdog: case took more than {watchdog} s (hang?)")
     signal.signal(signal.SIGALRM, on_alarm)
     for i in range(n):
         r = gen_recipe(rng, tier, **knobs)
         signal.alarm(watchdog)
         try:
             bad, notes = check_case(r, rng)
-        except TimeoutError as e:
+        except _Watchdog as e:
             bad, notes = [str(e)], []
         finally:
             signal.alarm(0)
